@@ -123,7 +123,7 @@ class EvalMixin(CallMixin):
                 self.heap[key] = v
                 return v
             builtin_ctor = isinstance(ce, ast.Call) and isinstance(ce.func, ast.Name) and ce.func.id in (
-                "frozenset", "set", "tuple", "list", "dict", "sorted", "range") and repo.resolve_name(cm, ce.func.id) is None
+                "frozenset", "set", "tuple", "list", "dict", "sorted", "range", "object") and repo.resolve_name(cm, ce.func.id) is None
             if v is NotImplemented and (isinstance(ce, (ast.List, ast.Tuple, ast.Dict, ast.Set)) or builtin_ctor) and not getattr(self, "_in_modconst", False):
                 # a module-level table whose entries are not plain constants (handler tuples built with operator.methodcaller, partials, ...):
                 # evaluated once by the interpreter in the module's scope, shared by everything that names it
